@@ -53,6 +53,20 @@ def lisTest (b : Bytes) : LisRes :=
         if es.isEmpty then .none
         else if (Tif.init b).hasTif then (if (Tif.init b).isReversed then .listr else .list) else .lis
 
+/-- the C06 index model declares parts of the format outside its scope (`Err.unsupported`: floating X values of a data
+record other than integers in code 68, dipmeter channels, differing spacing/depth units, …): on such a record stream
+`lisTest` is not claimed to follow the code (the correspondence run skips these files and counts them) -/
+def lisTestInScope (b : Bytes) : Bool :=
+  match bestReaderCfg b lisPrLimit with
+  | none => true
+  | some cfg =>
+    match collectRecs (run cfg b (some (Rd.new b)) (lisOps (b.length + 1))) with
+    | none => true
+    | some recs =>
+      match TD.C06.fileIndex recs with
+      | .error .unsupported => false
+      | _ => true
+
 /-- what `_lis` must answer for a layout: `LIS`, `LISt` (TIF markers), `LIStr` (reversed TIF markers) -/
 def lisCodeOf : TD.C05.TifMode → LisRes
   | .off => .lis
